@@ -350,8 +350,8 @@ Proof.
     rewrite Fh in R. change (p256 1) with 256 in R.
     assert (n <? s / 256 = true) by (apply N.ltb_lt; lia). rewrite H0 in R. discriminate.
   - split; [|split].
-    + intros L' j Hj. apply Keep; [now apply C1|]. cbn. reflexivity.
-    + intros j Hj. apply Keep; [now apply C2|]. cbn. reflexivity.
+    + intros L' j Hj. apply Keep; [now apply C1|]. reflexivity.
+    + intros j Hj. apply Keep; [now apply C2|]. reflexivity.
     + intros L' k HL Hk Hm. destruct (C3 L' k HL Hk Hm) as [P|P]; [|now right].
       destruct (gc_removes Ent Hsh st s (KHash (mkT L' (k / 256) (k mod 256)))) eqn:R.
       * right. cbn [Model.gc_removes tc_L tc_N tc_W] in R.
@@ -361,18 +361,14 @@ Proof.
         intro Z. rewrite Z in PP. now apply N.lt_irrefl in PP.
       * left. now apply Keep.
   - (* the cut at nextEntry *)
-    intro Z. destruct (D Z) as [P1 P2]. split; apply Keep; try assumption; cbn.
-    + assert (nx / 256 <? s / p256 1 = false).
-      { change (p256 1) with 256. apply N.ltb_ge. apply N.div_le_mono; lia. }
-      rewrite H0. now rewrite andb_false_r.
-    + assert (nx / 256 <? s / 256 = false) by (apply N.ltb_ge; apply N.div_le_mono; lia).
-      rewrite H0. now rewrite andb_false_r.
-  - intro Z. destruct (E Z) as [P1 P2]. split; apply Keep; try assumption; cbn.
-    + assert (mN / 256 <? s / p256 1 = false).
-      { change (p256 1) with 256. apply N.ltb_ge. apply N.div_le_mono; lia. }
-      rewrite H0. now rewrite andb_false_r.
-    + assert (mN / 256 <? s / 256 = false) by (apply N.ltb_ge; apply N.div_le_mono; lia).
-      rewrite H0. now rewrite andb_false_r.
+    intro Z. destruct (D Z) as [P1 P2].
+    assert (Q : nx / 256 <? s / 256 = false) by (apply N.ltb_ge; apply N.div_le_mono; lia).
+    split; apply Keep; try assumption; cbn [Model.gc_removes tc_L tc_N tc_W];
+      change (p256 1) with 256; rewrite Q; now rewrite andb_false_r.
+  - intro Z. destruct (E Z) as [P1 P2].
+    assert (Q : mN / 256 <? s / 256 = false) by (apply N.ltb_ge; apply N.div_le_mono; lia).
+    split; apply Keep; try assumption; cbn [Model.gc_removes tc_L tc_N tc_W];
+      change (p256 1) with 256; rewrite Q; now rewrite andb_false_r.
   - intros c' Hc'. rewrite L in Hc'. cbn in Hc'. now apply F.
 Qed.
 
